@@ -157,6 +157,7 @@ func loadRepo(dir string, overlay map[string][]byte) (*Ctx, error) {
 			}
 		}
 	}
+	c.bindFinalFuncGlobals()
 	c.aliasMovedFuncs()
 	curCtx = c
 	c.aliasOutlinedBodies()
@@ -485,5 +486,91 @@ func (c *Ctx) aliasOutlinedBodies() {
 		}
 		walk(h, k)
 		c.movedFuncs = append(c.movedFuncs, k+" <- body outlined into "+h.Name())
+	}
+}
+
+// bindFinalFuncGlobals: an unexported package-level variable of function type that is given a function once, in its
+// declaration, and is never assigned again or has its address taken (var newTimer = time.NewTimer) is another name for that
+// function: calls through it are calls of the function. The call instructions are re-pointed, so that every rule sees the
+// callee (the load of the variable stays where it is, unused).
+func (c *Ctx) bindFinalFuncGlobals() {
+	for _, sp := range c.SSA {
+		if sp == nil {
+			continue
+		}
+		var fns []*ssa.Function
+		if init := sp.Func("init"); init != nil {
+			fns = append(fns, init)
+		}
+		for _, f := range c.Funcs {
+			if rootFn(f).Pkg == sp {
+				fns = append(fns, f)
+			}
+		}
+		type use struct {
+			stores []*ssa.Store
+			loads  []*ssa.UnOp
+			other  bool
+		}
+		uses := map[*ssa.Global]*use{}
+		for _, m := range sp.Members {
+			g, ok := m.(*ssa.Global)
+			if !ok || token.IsExported(g.Name()) {
+				continue
+			}
+			if _, isSig := g.Type().(*types.Pointer).Elem().Underlying().(*types.Signature); isSig {
+				uses[g] = &use{}
+			}
+		}
+		if len(uses) == 0 {
+			continue
+		}
+		for _, f := range fns {
+			for _, b := range f.Blocks {
+				for _, in := range b.Instrs {
+					var ops [12]*ssa.Value
+					for _, op := range in.Operands(ops[:0]) {
+						g, ok := (*op).(*ssa.Global)
+						if !ok || uses[g] == nil {
+							continue
+						}
+						switch x := in.(type) {
+						case *ssa.Store:
+							if x.Addr == ssa.Value(g) && x.Val != ssa.Value(g) {
+								uses[g].stores = append(uses[g].stores, x)
+							} else {
+								uses[g].other = true
+							}
+						case *ssa.UnOp:
+							if x.Op == token.MUL {
+								uses[g].loads = append(uses[g].loads, x)
+							} else {
+								uses[g].other = true
+							}
+						case *ssa.DebugRef:
+						default:
+							uses[g].other = true
+						}
+					}
+				}
+			}
+		}
+		for g, u := range uses {
+			if u.other || len(u.stores) != 1 || u.stores[0].Parent().Name() != "init" {
+				continue
+			}
+			target, ok := u.stores[0].Val.(*ssa.Function)
+			if !ok {
+				continue
+			}
+			for _, ld := range u.loads {
+				for _, ref := range refsOf(ld) {
+					if cc := callCommon(ref); cc != nil && cc.Value == ssa.Value(ld) {
+						cc.Value = target
+					}
+				}
+			}
+			c.movedFuncs = append(c.movedFuncs, sp.Pkg.Name()+"."+g.Name()+" <- another name for "+target.String())
+		}
 	}
 }
